@@ -30,11 +30,19 @@ RULE = ("scenario = 2..24 files (empty files mixed in, 0..>10^4 results per file
 
 def gen_scenario(rng, tier, big=False):
     nfiles = rng.choice([2, 2, 3, 4, 6, 12, 24]) if not big else rng.choice([2, 3])
-    scn = gen.gen_run_scenario(rng, tier, nfiles=nfiles, constraint=0.15,
+    scn = gen.gen_run_scenario(rng, tier, nfiles=nfiles, constraint=0.0 if big else 0.15,
+                               empty=0.0 if big else 0.15,
                                lines=(rng.choice([3000, 12000]) if big else None))
     if big:
-        scn['defs'] = [{'type': 'simple', 'pats': [r'(\S*)'], 'tag': 't1', 'store': True}]
+        # every line ends in a token that is unique in the whole run: each file stores far more
+        # than one index block (1000) of distinct values while the other tasks do the same
+        for fi, f in enumerate(scn['files']):
+            ls = bytes.fromhex(f['content']).split(b'\n')
+            f['content'] = b'\n'.join(ln + b' u%d_%d' % (fi, k) if ln else ln
+                                      for k, ln in enumerate(ls)).hex()
+        scn['defs'] = [{'type': 'simple', 'pats': [r'(\S*).* (\S+)$'], 'tag': 't1', 'store': True}]
         scn['regs'] = [[0, k] for k in range(nfiles)]
+        scn['max_parallel_tasks'] = rng.choice([2, 3, 8])
     scn['_delays'] = rng.choice([0, 0, 1, 3])          # max ms
     scn['_dseed'] = rng.randrange(1 << 30)
     if not big and rng.random() < (0.08 if tier == 'quick' else 0.2):
